@@ -937,3 +937,24 @@ Proof.
     destruct (negb (ph_valid a)); cbn [fst snd] in *; try discriminate;
     destruct (ph_lines a); cbn [fst snd] in *; try discriminate; reflexivity.
 Qed.
+
+(* ------------------------------------------------------------------ the unrepaired behaviours violate the statement *)
+Definition refutes (f : fixes) (W H : Z) (ops : list op) : Prop :=
+  let w := run TS vt_feed (Cfg f W H false) (world0 (vt_start W H)) ops in
+  exists p, w_tr w = Some p /\ vt_cursor (snd (w_term w)) <> p.
+Ltac refute p := unfold refutes; cbv zeta; exists p; split; [vm_compute; reflexivity|vm_compute; discriminate].
+Lemma refuted_a : refutes (Fixes false true true true true) 80 24
+  [OReset; OMove (Some 5) (Some 3) None None; OMoveAbs (Some 0) None].
+Proof. refute (5, 3). Qed.
+Lemma refuted_b : refutes (Fixes true false true true true) 80 24
+  [OReset; OMove (Some 5) None None None; OMove None None (Some 100) None].
+Proof. refute (-95, 0). Qed.
+Lemma refuted_c : refutes (Fixes true true false true true) 80 24
+  [OReset; OPrintPlaceholder (PhArgs 1 0 0 0 4 3 None true false)].
+Proof. refute (0, 0). Qed.
+Lemma refuted_d : refutes (Fixes true true true false true) 80 24
+  [OReset; OSetMargins 2 9; OQuery; OMove None (Some 20) None None].
+Proof. refute (0, 20). Qed.
+Lemma refuted_e : refutes (Fixes true true true true false) 10 5
+  [OReset; OWrite (repeat 120%N 10); OSendPut [27; 95; 71; 97; 61; 112; 27; 92]%N (Some 7) 1 (Some 3) (Some 1) false].
+Proof. refute (0, 1). Qed.
